@@ -231,7 +231,7 @@ func (n *networkService) AllocIP(ctx context.Context, r *rpc.AllocIPRequest) (*r
 	})
 	if err != nil {
 		_ = n.eniMgr.Release(ctx, cni, &eni.ReleaseRequest{
-			NetworkResources: resp,
+			NetworkResources: excludeHeld(resp, oldRes),
 		})
 		return nil, err
 	}
@@ -963,6 +963,31 @@ func parseNetworkResource(item daemon.ResourceItem) eni.NetworkResource {
 		}
 	}
 	return nil
+}
+
+// excludeHeld drops the resources the pod already holds according to its stored record,
+// a failed repeat of an ADD must not take away what an earlier ADD handed out
+func excludeHeld(res eni.NetworkResources, old daemon.PodResources) []eni.NetworkResource {
+	held := sets.New[string]()
+	for _, item := range old.Resources {
+		if item.IPv4 != "" {
+			held.Insert(item.IPv4)
+		}
+		if item.IPv6 != "" {
+			held.Insert(item.IPv6)
+		}
+	}
+	result := make([]eni.NetworkResource, 0, len(res))
+	for _, r := range res {
+		if local, ok := r.(*eni.LocalIPResource); ok {
+			if (local.IP.IPv4.IsValid() && held.Has(local.IP.IPv4.String())) ||
+				(local.IP.IPv6.IsValid() && held.Has(local.IP.IPv6.String())) {
+				continue
+			}
+		}
+		result = append(result, r)
+	}
+	return result
 }
 
 func extractIPs(old daemon.ResourceItem) (ipv4, ipv6 netip.Addr, eniID string) {
